@@ -186,7 +186,111 @@ impl Observer for LayoutOracle {
     }
 }
 
+
+/// Seek-triggered compactions: files are charged for lookups that had to consult more than one
+/// file; a file that runs out of allowed seeks becomes the compaction candidate. Here the
+/// compaction thread is held at the start of its task (before it takes the lock) while lookups go
+/// on, so that further files run out of seeks while a candidate is already pending.
+fn case_seek_storm(out: &mut CaseOut, seed: u64, idx: u64) {
+    use crate::director::{director, COMPACTOR};
+    use crate::gen::{self, Config, KeyFamily};
+    use crate::simfs::SimFs;
+    let mut rng = Rng::new(mix(&[seed, idx], "c10-seek"));
+    let d = director();
+    d.reset(rng.next_u64());
+    // big memtable: nothing flushes unless asked; files are placed by explicit flushes
+    let cfg = Config { memtable: 1 << 20, file: 1 << 20, block: 4096, reuse: true };
+    let fs = SimFs::from_image(&crate::dbutil::root_image());
+    let mut sess = Session::new(fs, cfg);
+    if let Err(e) = sess.open() {
+        out.violate("C10/open-failed", json!({"error": e}));
+        return;
+    }
+    let pool = gen::key_pool(&mut rng, KeyFamily::Ascii, 40);
+    // layered shape: each flush covers a random sub-range, so files end up on levels 0..2 with
+    // nested / partially overlapping user-key ranges
+    let layers = rng.range(3, 6);
+    let mut counter = 0u64;
+    for _ in 0..layers {
+        let a = rng.usize_below(pool.len());
+        let b = rng.usize_below(pool.len());
+        let (lo, hi) = if a <= b { (a, b) } else { (b, a) };
+        let step = rng.range(1, 3) as usize;
+        for k in pool[lo..=hi].iter().step_by(step) {
+            counter += 1;
+            if sess.put(k, format!("v{counter}").as_bytes()).is_err() {
+                out.inconclusive("degenerate: write refused");
+                return;
+            }
+        }
+        // pure flush (a compact_range over a range that holds no keys)
+        sess.compact(Some(b"~~~~"), Some(b"~~~~"));
+    }
+    sess.wait_quiescent(Duration::from_secs(10));
+    let shape_before: Vec<String> = sess.db().verif_files().iter().map(|f| format!("L{}#{}[{}..{}]", f.level, f.number, show(&f.smallest.user_key), show(&f.largest.user_key))).collect();
+    let levels_used = sess.shape().iter().filter(|n| **n > 0).count();
+    let mut oracle = LayoutOracle { layouts_checked: 0, multi_file_layouts: BTreeSet::new(), check_contents: true };
+    let picks0 = d.note_count("compaction.pick");
+    let mut windows = 0;
+    for round in 0..3 {
+        let gate = d.arm(COMPACTOR, "compact.begin", 1);
+        // lookups until the first seek compaction has been scheduled (the worker arrives at the gate)
+        let mut gets = 0u64;
+        let mut arrived = false;
+        'storm: for _ in 0..400 {
+            for k in &pool {
+                let _ = sess.get(k);
+                gets += 1;
+                if gets % 16 == 0 && d.is_arrived(gate) {
+                    arrived = true;
+                    break 'storm;
+                }
+            }
+        }
+        if arrived {
+            windows += 1;
+            // the candidate is pending and the worker is parked: keep charging seeks
+            for _ in 0..rng.range(60, 160) {
+                for k in &pool {
+                    let _ = sess.get(k);
+                    gets += 1;
+                }
+            }
+        }
+        d.release(gate);
+        out.add("storm_gets", gets);
+        sess.wait_quiescent(Duration::from_secs(10));
+        oracle.check(&mut sess, out, if round == 0 { "after-seek-compaction" } else { "after-repeated-seek-compactions" });
+        if out.is_violated() || !arrived {
+            break;
+        }
+    }
+    // and across a reopen
+    if !out.is_violated() {
+        let cfg2 = Config { reuse: rng.chance(0.5), ..cfg };
+        if let Err(e) = sess.reopen(cfg2) {
+            out.violate("C10/open-failed/clean-reopen", json!({"error": e, "files": sess.fs.image().listing()}));
+            return;
+        }
+        oracle.check(&mut sess, out, "after-reopen");
+    }
+    let seek_compactions = d.note_count("compaction.pick") - picks0;
+    out.add("seek_triggered_compactions", seek_compactions);
+    out.add("windows_achieved", windows);
+    if windows > 0 && levels_used >= 2 {
+        out.nontrivial(format!("seek-storm/levels{levels_used}/layers{layers}/windows{windows}"));
+    }
+    sess.close();
+    out.sample = Some(json!({"family": "seek-storm", "config": cfg.describe(), "files_before": shape_before, "rounds_with_parked_worker": windows,
+        "compactions_picked": seek_compactions, "layouts_checked": oracle.layouts_checked}));
+}
+
 pub fn run_case(tier: &str, seed: u64, idx: u64) -> CaseOut {
+    if idx % 4 == 3 {
+        let mut out = CaseOut::new();
+        case_seek_storm(&mut out, seed, idx);
+        return out;
+    }
     let mut out = CaseOut::new();
     let mut rng = Rng::new(mix(&[seed, idx], "c10"));
     let n_ops = if tier == "quick" { 300 } else { rng.range(300, 1500) as usize };
